@@ -4,6 +4,7 @@ import re
 from core import strip, strip_parens, is_field, key_str, key_mentions
 from facts import AnalysisBroken
 from rules import (field_load, nodeset, callpred, atom_from, reach, ev, Unevaluable)
+from props import c01
 
 EXPLANATION = (
     "Abstractly interprets the x86-64 fiber_context_swap template over a symbolic stack: the registers pushed, in order, are "
@@ -457,6 +458,9 @@ def check_splitstack_buffer(ctx, P, tag=""):
 
 def run(ctx):
     P = ctx.prog()
+    c01.core_dependency(ctx, P, "core.dep", (),
+                        'the callers of the context switch (swap only from switch_to, one manager per kernel thread)',
+                        'a thread outside the runtime that reaches fiber_context_swap saves its registers into a context a kernel thread is running')
     R = check_swap(ctx, P)
     check_fresh(ctx, P, R)
     check_splitstack_buffer(ctx, P)
